@@ -10,4 +10,13 @@ def write_delimited(frame: jelly.RdfStreamFrame, output_stream: IO[bytes]) -> No
 
 
 def write_single(frame: jelly.RdfStreamFrame, output_stream: IO[bytes]) -> None:
-    output_stream.write(frame.SerializeToString(deterministic=True))
+    data = frame.SerializeToString(deterministic=True)
+    written = output_stream.write(data)
+    # same refusal as serialize_length_prefixed() in write_delimited()
+    if isinstance(written, int) and written != len(data):
+        msg = (
+            "Failed to write complete message "
+            f"(wrote: {written}, expected: {len(data)}). "
+            "Ensure output is using buffered IO."
+        )
+        raise TypeError(msg)
